@@ -41,6 +41,7 @@ PROPS = [RW_PROPS, M.P_READ, M.P_WRITE | M.P_WNR, M.P_NOTIFY, M.P_INDICATE, M.P_
 VL_ROT = [1, 0, 22, 23, 44, 21, 20, 19, 49, 50, 98, 184, 368, 512, 511, 66]
 SERVER_DEFAULT_MTU = 517
 REQUEST_BUDGET = 70000
+DISCOVERY_STEP_BUDGET = 80_000
 
 
 # ---------------------------------------------------------------------------
@@ -377,9 +378,9 @@ def run_link(g, model, link, f: Findings, info: dict, do_writes=True, light=Fals
                         await write_check(g, client, r, M.pattern(ln, salt), with_response, m, bearer, f, info, link)
                     await read_check(g, client, r, m, bearer, f, info, link)
 
-        if not run_bounded(g, go(), 600_000):
-            f.add('discovery', {'problem': 'no_termination'}, f'discovery/read sequence against the real server at ATT_MTU {m} ({bearer}) did not finish within 600000 loop steps '
-                  f'(about 50000 requests) or stalled; last procedure count {info.get("procedures", 0)}', link=link)
+        if not run_bounded(g, go(), DISCOVERY_STEP_BUDGET):
+            f.add('discovery', {'problem': 'no_termination'}, f'discovery/read sequence against the real server at ATT_MTU {m} ({bearer}) did not finish within {DISCOVERY_STEP_BUDGET} loop steps '
+                  f'(several thousand requests; a normal run needs < 5000 steps) or stalled; last procedure count {info.get("procedures", 0)}', link=link)
         ex = g.loop.collect_exceptions()
         for msg, exc in ex:
             f.add('loop_exception', {'problem': 'exception', 'exc': exc.split('(')[0], 'bearer': bearer}, f'event loop exception during discovery: {msg} {exc}', link=link)
@@ -487,15 +488,30 @@ def discovery_case(spec, links, seed=0, do_writes=True, light_after_first=False)
             f.add('db_layout', {'problem': 'sequence', 'autoreg_include': model.autoreg()}, 'server attribute list differs from the model: ' + probs[0])
             return f, info
         info['attributes'] = len(model.rows)
+        shapes_seen = info.setdefault('resp_shapes', set())
+
+        def tap(_h, pdu):
+            if pdu and pdu[0] & 1:
+                shapes_seen.add((pdu[0], len(pdu)))
+            return True
+
+        g.tap_device(g.server_dev, tap)
         for k, link in enumerate(links):
             run_link(g, model, tuple(link), f, info, do_writes, light=light_after_first and k > 0)
+            if any(it[1].get('problem') == 'no_termination' for it in f.items):
+                info['aborted'] = 1
+                break
     return f, info
 
 
 def w_discovery(arg):
     items, seed = arg
     st = core.Stats('discovery')
+    aborted = 0
     for idx, axes, links in items:
+        if aborted >= 3:
+            st.cap('discovery slice abandoned after 3 databases whose discovery did not terminate')
+            break
         spec = spec_of_axes(axes, idx)
         n_off = sum(1 for k, v in axes.items() if v != DEFAULT_AXES[k])
         f, info = discovery_case(spec, links, seed, do_writes=n_off <= 1, light_after_first=n_off > 1)
@@ -504,6 +520,9 @@ def w_discovery(arg):
         f.into(st)
         for k in ('procedures', 'compared', 'reads', 'writes', 'links', 'mtu_agree', 'secondary_walked'):
             st.count(k, info.get(k, 0))
+        for rs in info.get('resp_shapes', ()):
+            st.add('response_opcode_size_classes', rs)
+        aborted += info.get('aborted', 0)
         st.add('db_sizes', info.get('attributes', 0))
         st.add('shapes', idx)
         if len(st.samples) < 2:
@@ -899,7 +918,7 @@ def run(ctx: core.Context) -> int:
         items = []
         for idx, axes in enumerate(shapes):
             n_off = sum(1 for k, v in axes.items() if v != DEFAULT_AXES[k])
-            links = full if n_off <= 1 else link_sets[(idx + seed) % len(link_sets)]
+            links = full if n_off <= 1 else link_sets[idx % len(link_sets)]
             items.append((idx, axes, links))
         for p in core.split(rotate(items, seed), ctx.jobs * 8):
             tasks.append(('discovery', (p, seed)))
